@@ -602,6 +602,7 @@ def check_product_inplace(case):
     mp = [r[0] for r in mmul(Sp, [[x] for x in hp])]
     ga, gb = make_gd(case["g1"]), make_gd(case["g2"])
     state0, sb0 = _gd_state(ga), _gd_state(gb)
+    _ = ga.precision_matrix  # fill the cached precision matrix: it must not survive the in-place update
     r = ga.product(gb)  # documented default: in place
     if _gd_state(gb) != sb0:
         return {"key": "mutated-operand", "what": "in-place product changed the right operand"}
@@ -609,6 +610,11 @@ def check_product_inplace(case):
         return {"key": "noop" if _gd_state(ga) == state0 else "result",
                 "what": f"N({vs}) .product( N({vs2}) ) with the default inplace=True returned {r!r} and left the receiver at variables {ga.variables}, "
                         f"mean {ga.mean.reshape(-1).tolist()}; expected the product on {allv} with mean {[float(x) for x in mp]}"}
+    import numpy as _np
+    P = _np.asarray(ga.precision_matrix, dtype=float)
+    want = _np.array([[float(x) for x in row] for row in Kp])
+    if P.shape != want.shape or not _np.allclose(P, want, rtol=1e-6, atol=1e-7):
+        return {"key": "stale-precision-matrix", "what": f"after the in-place product precision_matrix is {P.tolist()}, the inverse of the new covariance is {want.tolist()}"}
     return None
 
 
